@@ -14,12 +14,19 @@
 //   raw_struct          RawFault14 { k, serial, tag }, NOT derived from std::exception  (serial number, copy counter)
 //   int                 `throw int`                                                 (value = fault index)
 //   cstring             `throw const char*`                                         (pointer identity + text)
-//   runtime_error_rich  RichFault14 : std::runtime_error with extra data            (serial, copy counter, tag[4], what() text:
-//                       a handler that re-throws by value, `throw e;`, slices it to the handler's declared type)
+//   runtime_error_rich  RichFault<std::runtime_error> : std::runtime_error with extra data (serial, copy counter, tag[4], what()
+//                       text: a handler that re-throws by value, `throw e;`, slices it to the handler's declared type)
+//   invalid_argument_rich / logic_error_rich / out_of_range_rich / bad_alloc_rich
+//                       the same user class template derived from std::invalid_argument, std::logic_error, std::out_of_range,
+//                       std::bad_alloc: the types the library itself throws or could plausibly "translate" in a typed handler
+//                       (`catch (const std::invalid_argument&) { throw std::invalid_argument("friendlier text"); }` around a
+//                       call that also applies the user's operator intercepts the USER's exception of such a type)
 // and for EVERY kind the same predicates (a)-(d) are judged; a std base-class object leaving the call instead of the user's
-// object is reported as `exception-sliced`.  thorough: kinds x indices exhaustively, on the warm and on the fresh object;
-// quick: per fault index one kind on the warm object and another one on the fresh object (rotating with the index, so any two
-// consecutive indices see four different kinds, at least two of them not derived from std::exception).
+// object is reported as `exception-sliced`, any other object as `exception-replaced`.  thorough: kinds x indices exhaustively,
+// on the warm and on the fresh object; quick: per fault index ONE kind derived from std::exception (6 of them, rotating with
+// index + case + case/12) on one object and ONE kind not derived from it (3, rotating likewise) on the other object, the roles
+// of warm/fresh swapping with the parity of the case: every index of every input sees a non-std fault, and every class sees
+// every std-derived kind at every small index (init() window) within 6 consecutive inputs of that class.
 // Model tie (symmetric family): the fresh-object history (faults, then clean run) is sent as a `hermf` request to Driver/C14.lean.
 // Model tie (general family): the same history on GenEigsSolver / GenEigsRealShiftSolver is sent as a `genf` request
 // (FaultOpGen.genKernF: outcome of every faulted call, num_operations() at the throw, then the recovery run bit for bit).
@@ -75,8 +82,11 @@ struct SpectraVerifAccess {
 };
 
 // ---- the user's exceptions: serial number and copy counter make "the same object" observable ----
-enum { FK_STD = 0, FK_RAW = 1, FK_INT = 2, FK_CSTR = 3, FK_RICH = 4, NFK = 5 };
-static const char* const fk_name[NFK] = {"std_exception", "raw_struct", "int", "cstring", "runtime_error_rich"};
+enum { FK_STD = 0, FK_RAW = 1, FK_INT = 2, FK_CSTR = 3, FK_RICH = 4, FK_INVARG = 5, FK_LOGIC = 6, FK_OOR = 7, FK_BADALLOC = 8, NFK = 9 };
+static const char* const fk_name[NFK] = {"std_exception", "raw_struct", "int", "cstring", "runtime_error_rich", "invalid_argument_rich", "logic_error_rich", "out_of_range_rich", "bad_alloc_rich"};
+static const int fk_stdlike[6] = {FK_STD, FK_RICH, FK_INVARG, FK_LOGIC, FK_OOR, FK_BADALLOC};     // derived from std::exception
+static const int fk_nonstd[3] = {FK_RAW, FK_INT, FK_CSTR};                                       // not derived from it
+static bool is_nonstd(int fk) { return fk == FK_RAW || fk == FK_INT || fk == FK_CSTR; }
 static long g_fault_serial = 0, g_fault_copies = 0;
 struct Fault14 : public UserFault {
     long serial;
@@ -92,14 +102,20 @@ struct RawFault14 {
     bool data_ok() const { return tag == tag_of(k, serial, 0); }
 };
 static const char* rich_msg(long k) { static char b[64]; std::snprintf(b, sizeof b, "fault14: user operator failed at application %ld", k); return b; }
-// derived from std::runtime_error, carrying more than the base class does: `throw e;` in a handler loses type and data
-struct RichFault14 : public std::runtime_error {
-    long k, serial, tag[4];
-    explicit RichFault14(long k_) : std::runtime_error(rich_msg(k_)), k(k_), serial(++g_fault_serial) { for (int j = 0; j < 4; j++) tag[j] = tag_of(k_, serial, j + 1); }
-    RichFault14(const RichFault14& o) : std::runtime_error(o), k(o.k), serial(o.serial) { for (int j = 0; j < 4; j++) tag[j] = o.tag[j]; g_fault_copies++; }
-    bool data_ok() const { for (int j = 0; j < 4; j++) if (tag[j] != tag_of(k, serial, j + 1)) return false; return std::strcmp(what(), rich_msg(k)) == 0; }
+// user classes derived from a STANDARD exception type, carrying more than the base class does: `throw e;` in a handler loses type
+// and data, a typed handler that "translates" the base type replaces the user's object
+struct RichData { long k = -1, serial = -1, tag[4] = {0, 0, 0, 0}; int kind = -1; virtual ~RichData() {}
+    virtual const std::type_info& self_type() const = 0; virtual bool msg_ok() const = 0;
+    bool data_ok() const { for (int j = 0; j < 4; j++) if (tag[j] != tag_of(k, serial, j + 1)) return false; return msg_ok(); } };
+template <class B> struct BaseOf { static B make(long k) { return B(rich_msg(k)); } static bool msg(const B& b, long k) { return std::strcmp(b.what(), rich_msg(k)) == 0; } };
+template <> struct BaseOf<std::bad_alloc> { static std::bad_alloc make(long) { return std::bad_alloc(); } static bool msg(const std::bad_alloc&, long) { return true; } };
+template <class B, int Kind> struct RichFault : public B, public RichData {
+    explicit RichFault(long k_) : B(BaseOf<B>::make(k_)) { k = k_; serial = ++g_fault_serial; kind = Kind; for (int j = 0; j < 4; j++) tag[j] = tag_of(k_, serial, j + 1); }
+    RichFault(const RichFault& o) : B(o), RichData(o) { g_fault_copies++; }
+    const std::type_info& self_type() const override { return typeid(RichFault); }
+    bool msg_ok() const override { return BaseOf<B>::msg(*this, k); }
 };
-static char g_cstr[64];
+static char g_cstr[64], g_what[200];
 static const char* cstr_msg(long k) { static char b[64]; std::snprintf(b, sizeof b, "fault14 cstring %ld", k); return b; }
 
 // ---- one log for ALL operator applications (A- and B-operator) of a solver, in call order ----
@@ -111,7 +127,11 @@ struct Log14 {
         case FK_RAW: throw RawFault14(k);
         case FK_INT: ++g_fault_serial; throw (int) k;
         case FK_CSTR: ++g_fault_serial; std::snprintf(g_cstr, sizeof g_cstr, "%s", cstr_msg(k)); throw (const char*) g_cstr;
-        case FK_RICH: throw RichFault14(k);
+        case FK_RICH: throw RichFault<std::runtime_error, FK_RICH>(k);
+        case FK_INVARG: throw RichFault<std::invalid_argument, FK_INVARG>(k);
+        case FK_LOGIC: throw RichFault<std::logic_error, FK_LOGIC>(k);
+        case FK_OOR: throw RichFault<std::out_of_range, FK_OOR>(k);
+        case FK_BADALLOC: throw RichFault<std::bad_alloc, FK_BADALLOC>(k);
         default: throw Fault14(k);
         }
     }
@@ -221,11 +241,22 @@ template <class H> static Fo faulted(H& h, Log14& log, long k, int fkind, const 
     {   Track t;
         try { o.stage = 'I'; h.init(); o.stage = 'C'; h.compute(); o.stage = 'N'; }
         catch (const Fault14& f) { o.caught = FK_STD; o.payload = f.k; o.serial = f.serial; o.dyn_ok = typeid(f) == typeid(Fault14); o.data_ok = std::strcmp(f.what(), "user operator fault") == 0; }
-        catch (const RichFault14& f) { o.caught = FK_RICH; o.payload = f.k; o.serial = f.serial; o.dyn_ok = typeid(f) == typeid(RichFault14); o.data_ok = f.data_ok(); }
-        catch (const std::exception& e) { o.caught = 10; o.tname = typeid(e).name();
-            // an object of a BASE class of the user's exception: what `throw e;` in a `catch (const Base& e)` handler produces
-            o.sliced = (fkind == FK_STD && (typeid(e) == typeid(UserFault) || typeid(e) == typeid(std::exception))) ||
-                       (fkind == FK_RICH && (typeid(e) == typeid(std::runtime_error) || typeid(e) == typeid(std::exception))); }
+        catch (const std::exception& e) {
+            const std::type_info& ti = typeid(e);
+            if (const RichData* d = dynamic_cast<const RichData*>(&e)) {      // one of the user's rich classes, whatever its standard base
+                o.caught = d->kind; o.payload = d->k; o.serial = d->serial; o.dyn_ok = ti == d->self_type(); o.data_ok = d->data_ok();
+            } else {
+                o.caught = 10; o.tname = ti.name(); std::snprintf(g_what, sizeof g_what, "%s", e.what());
+                // an object of a BASE class of the user's exception ...
+                const bool root = ti == typeid(std::exception), lg = ti == typeid(std::logic_error);
+                const bool base = (fkind == FK_STD && (ti == typeid(UserFault) || root)) || (fkind == FK_RICH && (ti == typeid(std::runtime_error) || root)) ||
+                    (fkind == FK_INVARG && (ti == typeid(std::invalid_argument) || lg || root)) || (fkind == FK_LOGIC && (lg || root)) ||
+                    (fkind == FK_OOR && (ti == typeid(std::out_of_range) || lg || root)) || (fkind == FK_BADALLOC && (ti == typeid(std::bad_alloc) || root));
+                // ... that is a COPY of it (what `throw e;` in a `catch (const Base& e)` handler produces: the message, where the base
+                // has one, is the user's); otherwise a new object made by the library = replaced
+                const bool has_msg = ti == typeid(std::runtime_error) || ti == typeid(std::invalid_argument) || lg || ti == typeid(std::out_of_range);
+                o.sliced = base && (!has_msg || std::strcmp(e.what(), rich_msg(k)) == 0);
+            } }
         catch (const RawFault14& f) { o.caught = FK_RAW; o.payload = f.k; o.serial = f.serial; o.data_ok = f.data_ok(); }
         catch (int v) { o.caught = FK_INT; o.payload = v; o.serial = g_fault_serial; }
         catch (const char* p) { o.caught = FK_CSTR; o.serial = g_fault_serial; o.dyn_ok = p == g_cstr; o.payload = o.dyn_ok ? k : -2; o.data_ok = o.dyn_ok && std::strcmp(p, cstr_msg(k)) == 0; }
@@ -252,12 +283,13 @@ static bool judge(Ctx& c, const Fo& o, long k, long k1, int fk1, long k2, int fk
     Out& out = *c.out; out.count("oracle_fault"); out.count(std::string("stage_") + o.stage); out.count(std::string("kind_") + fk_name[o.thrown]);
     const std::string J = rj(c, k1, k2, obj, fk_name[fk1], fk_name[fk2]);
     const std::string where = c.cls + ": fault (" + fk_name[o.thrown] + ") at application " + str(k) + (o.stage == 'I' ? " (inside init())" : " (inside compute())");
-    if (o.stage == 'C' && (o.thrown == FK_RAW || o.thrown == FK_INT || o.thrown == FK_CSTR)) out.count("nonstd_fault_inside_compute");
+    if (o.stage == 'C' && is_nonstd(o.thrown)) out.count("nonstd_fault_inside_compute");
+    if (o.stage == 'I' && !is_nonstd(o.thrown) && o.thrown != FK_STD) out.count("stdderived_rich_fault_inside_init");
     // the operator's state is judged whatever left the call (it is what the next init(); compute() runs with)
     if (!o.op_ok) out.fail("operator-state-after-fault", where + ": the user's operator object is left in a modified state (the shift installed at construction has been replaced by the solver's probing shift and is not restored when the exception passes through)", J);
     if (o.caught < 0) { out.fail("exception-swallowed", where + ": init(); compute() returned normally, the user's exception was swallowed (operator entered " + str(o.entered) + " times)", J); return false; }
     if (!o.user()) {
-        const std::string got = o.caught == 10 ? std::string(o.tname) : o.caught == 11 ? std::string("not a std::exception") : std::string(fk_name[o.caught]);
+        const std::string got = o.caught == 10 ? std::string(o.tname) + " what()=\"" + g_what + "\"" : o.caught == 11 ? std::string("not a std::exception") : std::string(fk_name[o.caught]);
         if (o.sliced) out.fail("exception-sliced", where + ": the object that left the call is a " + got + ", a base-class COPY of the user's exception: dynamic type and payload are lost (re-thrown by value, `throw e;`, instead of `throw;`)", J);
         else out.fail("exception-replaced", where + ": a different exception left the call (" + got + ")", J);
         return false; }
@@ -295,13 +327,14 @@ template <class Make, class Resp> static void sweep(Ctx& c, Log14& log, Make mak
     if (!(R1 == R0)) out.fail("baseline-not-reproducible", c.cls + ": a second init(); compute() on the same object differs from the first in " + diff(R1, R0), rj(c, 0, 0, "warm"));
     for (long k = 1; k <= K; k++) {
         const bool pair = c.thorough ? (k % 2 == 0) : (k % 4 == 0); const long k2 = pair ? 1 + (long) r.below((uint64_t) K) : 0;
-        // fault kinds: thorough = all kinds on both objects; quick = one kind per object, rotating with the index (kinds k+c and k+c+2 mod 5:
-        // two consecutive indices cover four kinds).  The second fault of a pair is of the NEXT kind (histories mix kinds).
-        const int rot = (int) ((k + c.caseno) % NFK); const int nk = c.thorough ? NFK : 1;
-        std::string resp0;
+        // fault kinds: thorough = all kinds on both objects; quick = one std-derived kind on one object and one non-std kind on the other
+        // (see the head of this file).  The second fault of a pair is of the NEXT kind (histories mix kinds).
+        const long mix = k + c.caseno + c.caseno / 12; const int rot = (int) (mix % NFK); const int nk = c.thorough ? NFK : 1;
+        const int qs = fk_stdlike[mix % 6], qn = fk_nonstd[mix % 3]; const bool swap = c.caseno % 2 == 1;
+        std::string resp0; int kind0 = 0;
         for (int q = 0; q < nk; q++) {
-            const int fw = (rot + q) % NFK, fw2 = (fw + 1) % NFK;          // warm object
-            const int ff = (rot + 2 + q) % NFK, ff2 = (ff + 1) % NFK;      // fresh object
+            const int fw = c.thorough ? (rot + q) % NFK : (swap ? qn : qs), fw2 = (fw + 1) % NFK;          // warm object
+            const int ff = c.thorough ? (rot + 2 + q) % NFK : (swap ? qs : qn), ff2 = (ff + 1) % NFK;      // fresh object
             { std::ofstream lc(out.dir + "/lastcase.txt"); lc << "c14 case " << c.caseno << " seed " << c.seed << " tier " << (c.thorough ? "thorough" : "quick") << " class " << c.cls << " n " << P.n << " nev " << P.nev << " ncv " << P.ncv << " fault_at " << k << " second_fault_at " << k2
                 << " fault kinds: warm object " << fk_name[fw] << (pair ? std::string(" then ") + fk_name[fw2] : std::string("")) << ", fresh object " << fk_name[ff] << (pair ? std::string(" then ") + fk_name[ff2] : std::string("")) << "\n"; }
             // (1) already used object
@@ -325,8 +358,8 @@ template <class Make, class Resp> static void sweep(Ctx& c, Log14& log, Make mak
             }
             if (g_live != L0) out.fail("leak-after-destroy", c.cls + ": " + str(g_live - L0) + " heap block(s) still live after fault (" + fk_name[ff] + ") at application " + str(k) + ", recovery and destruction of the solver", rj(c, k, k2, "fresh", fk_name[ff], fk_name[ff2]));
             // the model knows one exception `Exn.user k`: the history must not depend on the C++ type of the user's exception
-            if (q == 0) resp0 = resp;
-            else { out.count("kind_independence_checked"); if (resp != resp0) out.fail("history-depends-on-fault-kind", c.cls + ": the fault history (outcomes, counters at the throw, recovery run) with fault kind " + fk_name[ff] + " at application " + str(k) + " differs from the one with fault kind " + fk_name[(rot + 2) % NFK], rj(c, k, k2, "fresh", fk_name[ff], fk_name[ff2])); }
+            if (q == 0) { resp0 = resp; kind0 = ff; }
+            else { out.count("kind_independence_checked"); if (resp != resp0) out.fail("history-depends-on-fault-kind", c.cls + ": the fault history (outcomes, counters at the throw, recovery run) with fault kind " + fk_name[ff] + " at application " + str(k) + " differs from the one with fault kind " + fk_name[kind0], rj(c, k, k2, "fresh", fk_name[ff], fk_name[ff2])); }
         }
         if (hdr) { out.corr(*hdr + (pair ? " 2 " + str(k) + " " + str(k2) : " 1 " + str(k)), resp0.size() > 3 ? resp0.substr(3) : resp0); out.count(hdr->compare(0, 4, "genf") == 0 ? "tied_genf" : "tied_hermf"); }
     }
